@@ -7,6 +7,13 @@ V = os.path.dirname(os.path.dirname(os.path.abspath(__file__)))
 props = [json.loads(l) for l in open(os.path.join(V, "properties.jsonl"))]
 
 CLAIMED = {
+    "C10": dict(
+        technique="static analysis: MIR taint-free argument (resolved receiver types of every hash-container iteration, ambient-input call scan) + dependency-source facts; positive control crate",
+        text="Decides, for all grammars, that the shipped code iterates no container whose order is seeded per process and reads no clock/environment/pid/rng/address, by classifying every iteration-like call reachable from main by its fully resolved receiver type "
+        "and re-reading from the resolved dependency sources the facts that make hashbrown's and ustr's hashers fixed-key. A control crate with every forbidden construct must be flagged on each run. Determinism inside dependencies is taken from their contracts.",
+        note="trusted: rustc's type and callee resolution; the documented iteration order of BTreeMap/IndexMap/Vec/RoaringBitmap; std DefaultHasher::new fixed keys; regex-level reading of hashbrown/ahash/ustr sources",
+        design="5/C10",
+    ),
     "C06": dict(
         technique="static analysis: MIR may-panic / recursion / exit-status inventory (rustc_private driver) + CFG ordering of file creation vs. validation",
         text="Decides on the MIR of the shipped targets that every panic-capable site reachable from main is one of the inventoried, individually discharged sites (new or moved sites are reported), that every recursion is tabled with its depth argument, "
@@ -85,7 +92,7 @@ m = {
         "add_only": True,
     },
     "engines": [
-        {"name": "M mirfacts", "path": "tools/mirfacts", "serves_properties": ["C06"], "kind_free_text": "rustc_private driver (RUSTC_WORKSPACE_WRAPPER under cargo +nightly check through tools/shim/rustc): MIR CFG, resolved callees, assert kinds, types; analyses in vlib/mir.py, vlib/rules_panic.py"},
+        {"name": "M mirfacts", "path": "tools/mirfacts", "serves_properties": ["C06", "C10"], "kind_free_text": "rustc_private driver (RUSTC_WORKSPACE_WRAPPER under cargo +nightly check through tools/shim/rustc): MIR CFG, resolved callees, assert kinds, types; analyses in vlib/mir.py, vlib/rules_panic.py"},
         {"name": "S srcfacts", "path": "tools/srcfacts", "serves_properties": sorted(CLAIMED), "kind_free_text": "syn 2 syntax-tree dump (JSON) of /repo/src/*.rs; provenance resolver and rules in vlib/*.py"},
     ],
     "checks": checks,
